@@ -153,6 +153,23 @@ def run(ctx):
         "" if (exact or ok) else "set_default_doc announces defaults with {!r}, which extract_default does not search for ({})".format(announce, variants),
         line=sdd.node.lineno,
     )
+    ctx.section(numeric_rule, ctx, index)
+    # "rendering ... and parsing back" is quantified over interfaces, not over processes: one parse must not leave
+    # anything behind for the next (a memo, a flag on a module-level function, a shared default). C10's call-history
+    # rules on the docstring emitter / parser slice.
+    from . import c10
+
+    ctx.section(
+        c10.state_slice,
+        ctx,
+        "C01.state",
+        ["cdd.docstring.emit.docstring", "cdd.docstring.parse.docstring", "cdd.shared.docstring_parsers.parse_docstring"],
+    )
+
+
+def numeric_rule(ctx, index, rule="C01.numeric"):
+    """the untyped default text is classified int before float, with a sign-aware integer test (also a single-hop
+    necessary condition of C03: an int default must leave the docstring hop as an int)"""
     # --------------------------------------------------------------- numeric
     pod = index.func("cdd.shared.defaults_utils._parse_out_default_and_doc")
     # the classification may live in _parse_out_default_and_doc itself or in a private helper it calls
@@ -178,7 +195,7 @@ def run(ctx):
     consts = {c.value for c in ast.walk(expand_aliases(pod, it.test)) if isinstance(c, ast.Constant) and isinstance(c.value, str)}
     sign_aware = "-" in consts or any("-" in c for c in consts)
     ctx.ob(
-        "C01.numeric",
+        rule,
         pod,
         "if " + short(it.test, 80),
         sign_aware,
@@ -189,15 +206,4 @@ def run(ctx):
         line=it.lineno,
     )
     ok = it.lineno < min(f.lineno for f in float_sites)
-    ctx.ob("C01.numeric", pod, "int is tried before float", ok, "" if ok else "float() is tried before the integer test: every int default comes back as a float", line=it.lineno)
-    # "rendering ... and parsing back" is quantified over interfaces, not over processes: one parse must not leave
-    # anything behind for the next (a memo, a flag on a module-level function, a shared default). C10's call-history
-    # rules on the docstring emitter / parser slice.
-    from . import c10
-
-    ctx.section(
-        c10.state_slice,
-        ctx,
-        "C01.state",
-        ["cdd.docstring.emit.docstring", "cdd.docstring.parse.docstring", "cdd.shared.docstring_parsers.parse_docstring"],
-    )
+    ctx.ob(rule, pod, "int is tried before float", ok, "" if ok else "float() is tried before the integer test: every int default comes back as a float", line=it.lineno)
